@@ -15,7 +15,7 @@ C12: what "applying an estimator is pure" means for the executable models.
   new object (what the property asks); `returnsArgMutated` = works on the caller's object and
   returns it (`HampelFilter.transform`: `Z.iloc[j] = …` on the object `check_series` handed
   back); `writesResultIntoArg` = assigns the result column-wise into the caller's frame
-  (`Imputer(method="random")`, `HampelFilter` on a DataFrame); `replacesIndex` = `y.index = …` on
+  (`Imputer(method="random" | "drift" | "forecaster")` and `HampelFilter` on a DataFrame: `Z[col] = …`); `replacesIndex` = `y.index = …` on
   the caller's Series (`_coerce_int_to_range_index` in the statsmodels adapters' `fit`).
   `effectOf` is the table of the places where /repo's code is known to use one of the latter.
 Import-free apart from the shared models.
@@ -182,7 +182,8 @@ def effectOf (estimator method container : String) : Effect :=
     (if container == "Series" then .returnsArgMutated else .writesResultIntoArg)
   else if estimator == "HampelFilter:bool" && (method == "transform" || method == "fit_transform")
       && container == "DataFrame" then .writesResultIntoArg
-  else if estimator == "Imputer:random" && (method == "transform" || method == "fit_transform")
+  else if (estimator == "Imputer:random" || estimator == "Imputer:drift" || estimator == "Imputer:forecaster")
+      && (method == "transform" || method == "fit_transform")
       && container == "DataFrame" then .writesResultIntoArg
   else if (estimator == "ExponentialSmoothing" || estimator == "ThetaForecaster" || estimator == "AutoETS")
       && method == "fit" && container == "Series" then .replacesIndex
